@@ -9,6 +9,7 @@ from lib import vlib, selection
 from gen import updatemask
 
 PROP = "C13"
+QUICK_ACCESSOR_HARNESSES = 6
 FEATURES = ["sync", "vanilla", "tbc", "wrath"]
 P = "verif_kani::c13_inners::"
 INNER = {
@@ -34,6 +35,7 @@ def batches(scratch, tier="thorough", seed=0):
     injs = []
     meta = {}
     vers = ["vanilla", "tbc", "wrath"]
+    changed = []
     if tier == "quick":
         # every version whose impls.rs / table differs from the baseline, plus one seeded version
         changed = [v for v in vers if selection.changed(["wow_world_messages/src/helper/%s/update_mask/impls.rs" % v,
@@ -41,8 +43,16 @@ def batches(scratch, tier="thorough", seed=0):
                                                          "wowm_language/src/types/update-mask.md"])]
         pick = vers[seed % 3]
         vers = sorted(set(changed + [pick]))
+    import random
     for v in vers:
         inj, sp, m = updatemask.gen_version(vlib.REPO, v)
+        if tier == "quick" and v not in changed:
+            # unchanged version: a VERIF_SEED sample of its accessor contracts (each covers up to 60 accessors)
+            keys = sorted(k for k in sp if not sp[k].get("canary"))
+            random.Random(seed).shuffle(keys)
+            keep = set(keys[:QUICK_ACCESSOR_HARNESSES])
+            sp = {k: val for k, val in sp.items() if k in keep or val.get("canary")}
+            m = dict(m, quick_sample_of_harnesses=len(keep))
         injs.append(inj)
         specs.update(sp)
         meta[v] = m
